@@ -57,7 +57,8 @@ fn hash_ipv4_flow(ip_packet: &[u8], num_workers: usize) -> Option<usize> {
 
     // IPv4 header is variable length (IHL field)
     let ihl = (ip_packet[0] & 0x0F) as usize;
-    let ip_header_len = ihl.saturating_mul(4);
+    // The packet parser never places the TCP header inside the 20 fixed header bytes.
+    let ip_header_len = ihl.saturating_mul(4).max(20);
 
     if ip_packet.len() < ip_header_len.saturating_add(4) {
         // TCP header not fully present, discard
